@@ -239,6 +239,11 @@ class Aspire:
         self.training_samples = samples
         logger.info(f"Training with {len(samples.x)} samples")
         history = self.flow.fit(samples.x, **kwargs)
+        # A checkpoint primed by resume_from_file was weighted under the
+        # previous flow and must not be resumed with the refitted one
+        for name in ("_resume_from_default", "_resume_sampler_type"):
+            if hasattr(self, name):
+                delattr(self, name)
         defaults = getattr(self, "_checkpoint_defaults", None)
         if checkpoint_path is None and defaults:
             checkpoint_path = defaults["path"]
